@@ -102,6 +102,11 @@ func (l *leaderElection) Campaign() {
 				}
 				l.metricCli.EmitGauge("leader.election.initial.version", version, metrics.Tag("addr", leaderAddr))
 				// TODO push this logic to on start leading call back
+				// a follower has already adopted the previous leader's revision for its reads: never
+				// start below it (the allocator would keep dealing above a lowered read revision)
+				if cur := l.backend.GetCurrentRevision(); cur > version {
+					version = cur
+				}
 				l.backend.SetCurrentRevision(version)
 				l.leader = true
 				l.onStartedLeading(ctx)
